@@ -7,6 +7,15 @@
 //!   c09.lincomb <kind> <n> <m> <a,b;a,b;…|->                  lincomb_vartime
 //!
 //! Output: `<retrieve()> <as_montgomery()>` (boxed: both as `<nlimbs>:<hex>`).
+//!
+//! Crate-internal functions through `crypto_bigint::verif_hooks`, on RAW Montgomery-domain limbs (any value of the
+//! width, reduced or not; `one` and `mod_neg_inv` = `k` are arguments too):
+//!   c09.hook.compute_powers <n> <m> <one> <k> <x>                          `compute_powers` → the 16 entries `p0,p1,…,p15`
+//!   c09.hook.multi_internal <n> <ne> <m> <one> <k> <bits> <p0:…:p15,e;…|->  `multi_exponentiate_montgomery_form_internal`
+//!                                                                          on caller-provided tables (any 16 values)
+//!   c09.hook.longa  <n> <m> <k> <a,b;…|->     ONE pass of `impl_longa_monty_lincomb!` (fixed) → `<u> <hi_carry>`
+//!   c09.hook.blonga <n> <m> <k> <a,b;…|->     boxed twin → `<n>:<u> <hi_carry>`
+//!   c09.hook.bpow   <n> <ne> <m> <one> <k> <bits> <x> <e>   boxed `pow_montgomery_form` → `<n>:<z>`
 //! `kind = const` needs `(n, m)` from the `const_moduli!` table below (tools/gen/c09.py carries the same table).
 use crate::util::*;
 use core::marker::PhantomData;
@@ -263,6 +272,8 @@ const_moduli! {
     (C4Lz1, U256, 4, "7fffffff00000000ffffffffffffffffbce6faada7179e84f3b9cac2fc632551"),
     (C4Lz4, U256, 4, "0fffffff00000000ffffffffffffffffbce6faada7179e84f3b9cac2fc632551"),
     (C8Quarter, U512, 8, "3fffffffffffffffffffffffffffffffffffffffffffffffffffffffffffffffffffffffffffffffffffffffffffffffffffffffffffffffffffffffffffffff"),
+    (C1Sq, U64, 1, "fffffff600000019"),
+    (C2Pow3, U128, 2, "6f32f1ef8b18a2bc3cea59789c79d441"),
     (C16Half, U1024, 16, "8000000000000000000000000000000000000000000000000000000000000000000000000000000000000000000000000000000000000000000000000000000000000000000000000000000000000000000000000000000000000000000000000000000000000000000000000000000000000000000000000000000000000001"),
 }
 
@@ -337,7 +348,147 @@ fn boxed_ops(op: &str, a: &[&str]) -> Option<String> {
     }
 }
 
+// ------------------------------------------------------------------ hooks (crate-internal functions)
+
+mod hook {
+    use crate::util::*;
+    use crypto_bigint::modular::{BoxedMontyForm, BoxedMontyParams, MontyForm, MontyParams};
+    use crypto_bigint::verif_hooks as hooks;
+    use crypto_bigint::{BoxedUint, Odd, Uint};
+
+    fn odd<const N: usize>(m: &str) -> Option<Odd<Uint<N>>> {
+        Option::from(Odd::new(uint::<N>(m)?))
+    }
+
+    pub fn compute_powers<const N: usize>(a: &[&str]) -> Option<String> {
+        let [m, one, k, x] = a else { return Some(BAD.into()) };
+        let (m, one, k, x) = (arg!(odd::<N>(m)), arg!(uint::<N>(one)), arg!(limb(k)), arg!(uint::<N>(x)));
+        let t = hooks::compute_powers(&x, &m, &one, k);
+        Some(t.iter().map(uhex).collect::<Vec<_>>().join(","))
+    }
+
+    pub fn multi_internal<const N: usize, const R: usize>(a: &[&str]) -> Option<String> {
+        let [m, one, k, bits, terms] = a else { return Some(BAD.into()) };
+        let (m, one, k, bits) = (arg!(odd::<N>(m)), arg!(uint::<N>(one)), arg!(limb(k)), arg!(dec32(bits)));
+        let mut pes: Vec<([Uint<N>; hooks::POW_TABLE], Uint<R>)> = Vec::new();
+        if *terms != "-" {
+            for t in terms.split(';') {
+                let (tab, e) = arg!(t.split_once(','));
+                let ps: Vec<&str> = tab.split(':').collect();
+                if ps.len() != hooks::POW_TABLE {
+                    return Some(BAD.into());
+                }
+                let mut arr = [Uint::<N>::ZERO; hooks::POW_TABLE];
+                for (i, p) in ps.iter().enumerate() {
+                    arr[i] = arg!(uint::<N>(p));
+                }
+                pes.push((arr, arg!(uint::<R>(e))));
+            }
+        }
+        Some(uhex(&hooks::multi_exponentiate_montgomery_form_internal(&pes, bits, &m, &one, k)))
+    }
+
+    pub fn longa<const N: usize>(a: &[&str]) -> Option<String> {
+        let [m, k, terms] = a else { return Some(BAD.into()) };
+        let (m, k) = (arg!(odd::<N>(m)), arg!(limb(k)));
+        let params = MontyParams::new_vartime(m);
+        let mut forms: Vec<(MontyForm<N>, MontyForm<N>)> = Vec::new();
+        if *terms != "-" {
+            for t in terms.split(';') {
+                let (x, y) = arg!(t.split_once(','));
+                forms.push((
+                    MontyForm::from_montgomery(arg!(uint::<N>(x)), params),
+                    MontyForm::from_montgomery(arg!(uint::<N>(y)), params),
+                ));
+            }
+        }
+        let refs: Vec<(&MontyForm<N>, &MontyForm<N>)> = forms.iter().map(|(x, y)| (x, y)).collect();
+        let (u, hc) = hooks::longa_monty_lincomb(&refs, &m, k);
+        Some(format!("{} {}", uhex(&u), lhex(hc)))
+    }
+
+    fn bodd(m: &str, n: usize) -> Option<Odd<BoxedUint>> {
+        Option::from(Odd::new(boxed(m, n)?))
+    }
+
+    pub fn blonga(a: &[&str]) -> Option<String> {
+        let [n, m, k, terms] = a else { return Some(BAD.into()) };
+        let n = arg!(dec(n));
+        let (m, k) = (arg!(bodd(m, n)), arg!(limb(k)));
+        let params = BoxedMontyParams::new_vartime(m.clone());
+        let mut forms: Vec<(BoxedMontyForm, BoxedMontyForm)> = Vec::new();
+        if *terms != "-" {
+            for t in terms.split(';') {
+                let (x, y) = arg!(t.split_once(','));
+                forms.push((
+                    BoxedMontyForm::from_montgomery(arg!(boxed(x, n)), params.clone()),
+                    BoxedMontyForm::from_montgomery(arg!(boxed(y, n)), params.clone()),
+                ));
+            }
+        }
+        let refs: Vec<(&BoxedMontyForm, &BoxedMontyForm)> = forms.iter().map(|(x, y)| (x, y)).collect();
+        let (u, hc) = hooks::longa_boxed_monty_lincomb(&refs, &m, k);
+        Some(format!("{} {}", bhexlen(&u), lhex(hc)))
+    }
+
+    pub fn bpow(a: &[&str]) -> Option<String> {
+        let [n, ne, m, one, k, bits, x, e] = a else { return Some(BAD.into()) };
+        let (n, ne) = (arg!(dec(n)), arg!(dec(ne)));
+        let m = arg!(bodd(m, n));
+        let z = hooks::boxed_pow_montgomery_form(
+            &arg!(boxed(x, n)),
+            &arg!(boxed(e, ne)),
+            arg!(dec32(bits)),
+            m.as_ref(),
+            &arg!(boxed(one, n)),
+            arg!(limb(k)),
+        );
+        Some(bhexlen(&z))
+    }
+}
+
+fn hook_dispatch(name: &str, a: &[&str]) -> Option<String> {
+    let unsupported = Some("unsupported-width".to_string());
+    match name {
+        "compute_powers" | "longa" if !a.is_empty() => {
+            let n = arg!(dec(a[0]));
+            let rest = &a[1..];
+            macro_rules! go {
+                ($($n:literal),*) => {
+                    match (name, n) {
+                        $( ("compute_powers", $n) => hook::compute_powers::<$n>(rest), ("longa", $n) => hook::longa::<$n>(rest), )*
+                        _ => unsupported,
+                    }
+                };
+            }
+            go!(1, 2, 3, 4, 8, 16)
+        }
+        "multi_internal" if a.len() >= 2 => {
+            let (n, ne) = (arg!(dec(a[0])), arg!(dec(a[1])));
+            let rest = &a[2..];
+            match (n, ne) {
+                (1, 1) => hook::multi_internal::<1, 1>(rest),
+                (1, 2) => hook::multi_internal::<1, 2>(rest),
+                (2, 1) => hook::multi_internal::<2, 1>(rest),
+                (2, 2) => hook::multi_internal::<2, 2>(rest),
+                (3, 1) => hook::multi_internal::<3, 1>(rest),
+                (4, 1) => hook::multi_internal::<4, 1>(rest),
+                (4, 4) => hook::multi_internal::<4, 4>(rest),
+                (4, 8) => hook::multi_internal::<4, 8>(rest),
+                (8, 2) => hook::multi_internal::<8, 2>(rest),
+                _ => unsupported,
+            }
+        }
+        "blonga" => hook::blonga(a),
+        "bpow" => hook::bpow(a),
+        _ => None,
+    }
+}
+
 pub fn dispatch(op: &str, a: &[&str]) -> Option<String> {
+    if let Some(name) = op.strip_prefix("c09.hook.") {
+        return hook_dispatch(name, a);
+    }
     if !matches!(op, "c09.pow" | "c09.powb" | "c09.multi" | "c09.multib" | "c09.lincomb") {
         return None;
     }
